@@ -387,6 +387,22 @@ def run(ctx):
                 ctx.bad(R_key, "%s|position-operand" % path.split("::")[-1], "%s:%d" % (f.file, ln), "this reader adds `%s` into the key; its sibling readers add `%s`" % (r_, maj),
                         "the same FIX_KEY file decrypts through one entry point and not through the other whenever the two operands differ (archive not at offset 0)")
 
+    # 3c. the size operand of the adjusted key is the file's *uncompressed* size on every branch that can supply it
+    for path in ("archive::Archive::read_file", "archive::Archive::read_file_by_indices", "archive::Archive::read_patch_file_raw"):
+        f = fns.get(M + path)
+        if f is None:
+            continue
+        for x, x_ln in hirq.inline_local_calls(f.hir["body"], local_fns, lambda n_: n_.get("k") == "bin" and n_["op"] == "^" and "wrapping_add" in hirq.render(n_), depth=1, skip=re.compile(r"::crypto::|::compression::")):
+            size = x["r"] if "wrapping_add" in hirq.render(x["l"]) else x["l"]
+            leaves = hirq.value_leaves(f.hir["body"], size)
+            wrong = [("?" if v is None else hirq.render(v)) for v in leaves if v is None or not (v.get("k") == "field" and v["name"] == "file_size")]
+            if wrong or not leaves:
+                ctx.bad(R_key, "%s|size-operand" % path.split("::")[-1], "%s:%d" % (f.file, x_ln or x.get("ln") or 0), "the value XOR-ed into the adjusted key can be `%s`; the builder uses the uncompressed file size" % ", ".join(wrong or ["<nothing resolved>"]),
+                        "FIX_KEY files whose stored size differs from their size decrypt with the wrong key on that branch")
+            else:
+                ctx.ok(R_key, {"fn": path, "size_operand": sorted({hirq.render(v) for v in leaves})})
+            break
+
     # 4. flags
     cg = mirg.CallGraph([mpq])
     def flags_in(paths):
